@@ -456,6 +456,14 @@ def r02_4_recursion_guards(ctx):
     loopt = [a.target for a in q.ancestors(conds[0]) if isinstance(a, ast.For)] if conds else []
     kv = [u(e) for e in loopt[0].elts] if loopt and isinstance(loopt[0], ast.Tuple) and len(loopt[0].elts) == 2 else ["k", "v"]
     ctx.check(len(conds) == 1 and isinstance(conds[0].test, ast.BoolOp) and isinstance(conds[0].test.op, ast.And) and sorted(u(v) for v in conds[0].test.values) == sorted([f"{kv[0]}.by_ref_args", kv[1]]), "R02.4", "spill:byref-condition", f"a routine is rejected iff it has re-entry points and by-reference parameters; found `{u(conds[0].test) if conds else None}`", f.where, fact={})
+    # wiring: the spill pass runs for every compilation (both calling conventions keep routine-local scratch variables), on the
+    # flattened routines, before subroutine references are resolved
+    ci = ctx.model.find_func("Compilation._compile_impl", "pyteal.compiler.compiler")
+    sp = q.one(q.calls_named(ci.node, "spillLocalSlotsDuringRecursion", into_nested=False), "_compile_impl: spillLocalSlotsDuringRecursion call")
+    rs = q.one(q.calls_named(ci.node, "resolveSubroutines", into_nested=False), "_compile_impl: resolveSubroutines call")
+    ssb = q.one(q.calls_named(ci.node, "sort_subroutine_blocks", into_nested=False), "_compile_impl: sort_subroutine_blocks call")
+    branchy = q.nguards(sp, ("branch",))
+    ctx.check(not branchy and ssb.lineno < sp.lineno < rs.lineno, "R02.4", "_compile_impl:spill-always", f"the recursion spill must run unconditionally between sort_subroutine_blocks and resolveSubroutines; it runs under {branchy}", f"{ci.module.rel}:{sp.lineno}", fact={"guards": branchy})
     ctx.require_min("R02.4", 700)
 
 
